@@ -45,20 +45,27 @@ def set_budget(b):
     return old
 
 
-def derive(tree, budget=1000, from_obj=None):
-    """single-step the real rewriter on a fresh copy, then NF; and an independent end-to-end _normalize()"""
-    obj = from_obj if from_obj is not None else J.build_tree(tree)
+def derive(tree, budget=1000, prep=None):
+    """single-step the real rewriter on a fresh copy, then NF; and an independent end-to-end _normalize().
+    prep() builds the input object (default: fresh from the tree); it is called twice so that the stepped
+    object and the end-to-end object have the same history."""
+    obj = prep() if prep is not None else J.build_tree(tree)
     n = J.size(tree)
     cap = 2 * n * n + 10 + 3
     forms = [snapshot(obj)]
     steps = 0
     while not obj._is_fully_reduced and steps < cap:
         obj = obj._take_reduction_step()
-        forms.append(snapshot(obj))
+        if steps < 400:
+            forms.append(snapshot(obj))
         steps += 1
     capped = not obj._is_fully_reduced
+    if capped:
+        forms = forms[:80]       # a runaway derivation: keep a prefix (enough to exhibit a cycle), TLC reports the bound
+    elif steps >= 400:
+        forms.append(snapshot(obj))
     nf = snapshot(obj._normalize_fully_reduced()) if not capped else forms[-1]
-    fresh = J.build_tree(tree)
+    fresh = prep() if prep is not None else J.build_tree(tree)
     h = WarnCatcher()
     root = logging.getLogger()
     root.addHandler(h)
@@ -68,7 +75,35 @@ def derive(tree, budget=1000, from_obj=None):
     finally:
         set_budget(old)
         root.removeHandler(h)
-    return {"forms": forms, "nf": nf, "norm": norm, "warn": h.hit, "budget": budget, "capped": capped}
+    return {"forms": forms, "nf": nf, "norm": norm, "warn": h.hit, "budget": budget, "capped": capped, "nsteps": steps}
+
+
+def second_round(rnd, tier):
+    """inputs that CONTAIN OUTPUTS OF EARLIER SIMPLIFICATIONS (objects returned by _normalize / as_expression, with whatever
+    memo flags they carry), embedded in new expressions or differentiated again"""
+    S = J.sm()
+    src = gen.dedup(gen.rule_patterns("quick")[::7] + gen.towers(3)[::3] + gen.products()[::5] + gen.d1q())
+    src = [t for t in src if J.variables(t) and J.size(t) <= 14]
+    wraps = [lambda o: S.Sine(o), lambda o: S.Add(o, S.Variable("x")), lambda o: S.Multiply(o, o), lambda o: S.Negation(o),
+             lambda o: S.Reciprocal(o), lambda o: S.NthPower(o, 2), lambda o: S.Minus(S.Variable("y"), o), lambda o: S.Exponential(o, base=2),
+             lambda o: o._synthetic_partial("x"), lambda o: o._synthetic_partials().get("x", S.Constant(0)),
+             lambda o: S.Partial(o, "x").as_expression()._synthetic_partial("x"), lambda o: S.Divide(o, S.Add(o, S.Constant(1)))]
+    out = []
+    for t in rnd.sample(src, min(len(src), 250 if tier == "quick" else 1500)):
+        w = rnd.choice(wraps)
+        via = rnd.choice(("normalize", "partial"))
+
+        def prep(t=t, w=w, via=via):
+            o = J.build_tree(t)
+            o1 = o._normalize() if via == "normalize" else S.Partial(o, "x").as_expression()
+            return w(o1)
+        try:
+            tree = J.expr_to_E(prep())
+        except OverflowError:
+            continue
+        if J.size(tree) <= 80:
+            out.append((tree, prep))
+    return out
 
 
 def points_for(tree, tier, rnd):
@@ -127,11 +162,12 @@ def run(pid, tier, seed):
         for k in range(40):
             big.append(gen.random_tree(random.Random(seed * 17 + k), 6))
         big = [t for t in big if 150 <= J.size(t) <= 700][:12]
-    todo = [(t, 1000) for t in ins] + giveup + [(t, 1000) for t in big]
+    todo = [(t, 1000, None) for t in ins] + [(t, b, None) for t, b in giveup] + [(t, 1000, None) for t in big]
+    todo += [(t, 1000, prep) for t, prep in second_round(rnd, tier)]
     skipped_overflow = 0
-    for i, (t, b) in enumerate(todo, 1):
+    for i, (t, b, prep) in enumerate(todo, 1):
         try:
-            d = derive(t, budget=b)
+            d = derive(t, budget=b, prep=prep)
         except OverflowError:
             skipped_overflow += 1      # exact intermediates leave the floating-point range: excluded by the properties
             continue
@@ -188,14 +224,14 @@ def run(pid, tier, seed):
         v = verd[row["i"]]
         k = len(row["forms"])
         counts["steps"] += k - 1
-        counts["max_steps"] = max(counts["max_steps"], k - 1)
+        counts["max_steps"] = max(counts["max_steps"], row["nsteps"])
         n0 = J.size(t)
-        counts["max_steps_ratio"] = max(counts["max_steps_ratio"], round((k - 1) / (n0 * n0), 3))
+        counts["max_steps_ratio"] = max(counts["max_steps_ratio"], round(row["nsteps"] / (n0 * n0), 3)) if n0 >= 5 else counts["max_steps_ratio"]
         if row["warn"]:
             counts["gaveup_events"] += 1
         if not v["truthful"]:
             counts["untruthful_flags"] += 1
-        desc = {"expr": J.show(t), "tree": t, "budget": b, "steps": k - 1}
+        desc = {"expr": J.show(t), "tree": t, "budget": b, "steps": row["nsteps"]}
         tags_here = []
         kf_other_bad = False
         kf_any = False
